@@ -160,13 +160,16 @@ fn process_file_into(
             lalrpop_file.to_string_lossy()
         );
 
+        // Remove the old output first, so that a build that fails for any
+        // reason (including an unreadable source file) leaves no stale output.
+        remove_old_file(rs_file)?;
+
         // Load the LALRPOP source text for this file:
         let file_text = Rc::new(FileText::from_path(lalrpop_file.to_path_buf())?);
 
         if let Some(parent) = rs_file.parent() {
             fs::create_dir_all(parent)?;
         }
-        remove_old_file(rs_file)?;
 
         // Store the session and file-text in TLS -- this is not
         // intended to be used in this high-level code, but it gives
